@@ -49,3 +49,19 @@ Proof.
   intros t off. unfold get_scope_for_token. rewrite Hfm. reflexivity.
 Qed.
 Print Assumptions C14_stable.
+
+(* the bytecode-offset entry point: (0, offset) is looked up by C04's rule and the answer is the scope of the token found *)
+From SM Require Import Proofs.GlbProofs Proofs.HermesEntry.
+Theorem C14_bytecode_offset : forall h off,
+  sorted tok_key (sm_tokens (h_sm h)) -> Forall (fun t => is_u32 (t_dc t) = true) (sm_tokens (h_sm h)) -> is_u32 off = true ->
+  match lookup_token (sm_tokens (h_sm h)) 0 off with
+  | Ok (Some (i, t, o)) =>
+      glb_spec tok_key (sm_tokens (h_sm h)) (0, off) (Some (i, t))
+      /\ o = (if t_range t && (t_dl t =? 0) then off - t_dc t else 0)
+      /\ h_get_original_function_name h off = Ok (get_scope_for_token h t o)
+  | Ok None => (forall t, In t (sm_tokens (h_sm h)) -> plt (0, off) (tok_key t))
+               /\ h_get_original_function_name h off = Ok None
+  | _ => False
+  end.
+Proof. exact HermesEntry.C14_bytecode_offset. Qed.
+Print Assumptions C14_bytecode_offset.
